@@ -286,13 +286,19 @@ func (q *chunkQueue) RetryAll() {
 	q.Lock()
 	defer q.Unlock()
 	q.chunkReturned = make(map[uint32]bool)
-	// Requests that were outstanding when the fetchers of the previous attempt
-	// were stopped will never be answered for: release their allocation so that
-	// the chunks are requested again.
-	for index := range q.chunkAllocated {
-		if q.chunkFiles[index] == "" {
-			delete(q.chunkAllocated, index)
-		}
+}
+
+// Release gives back the allocation of a chunk that has not arrived, so that it
+// can be allocated (and requested) again. It is a no-op for a chunk that is
+// present.
+func (q *chunkQueue) Release(index uint32) {
+	q.Lock()
+	defer q.Unlock()
+	if q.snapshot == nil {
+		return
+	}
+	if q.chunkFiles[index] == "" {
+		delete(q.chunkAllocated, index)
 	}
 }
 
